@@ -1,0 +1,26 @@
+//go:build verif
+// +build verif
+
+package argmapper
+
+// This file is only built with the "verif" tag. It exposes observation
+// points for the verification harness and changes no behavior.
+
+// VerifHook, when non-nil, is called at the instrumented points of
+// callDirect ("once.enter" before the FuncOnce lock is taken, "once.check"
+// with the lock held before the memoized result is looked up, "once.exec"
+// before the function body runs, "once.store" before the result is
+// memoized). It may block: the harness uses it as a scheduler gate.
+var VerifHook func(ev string, f *Func)
+
+func verifHook(ev string, f *Func) {
+	if h := VerifHook; h != nil {
+		h(ev, f)
+	}
+}
+
+// VerifOnce reports whether f is a FuncOnce function and whether it holds a
+// memoized result.
+func (f *Func) VerifOnce() (once bool, memoized bool) {
+	return f.once, f.onceResult != nil
+}
